@@ -33,7 +33,7 @@ COMPONENTS = {
 }
 ASSUMPTIONS = ["reference = all index combinations filtered by order-isomorphism (ref/patterns.py)"]
 EXPECTED_PROBES = ["memo_hit_other_target", "interleaved_same_object", "memo_flush", "shared_to_standard_object",
-                   "copy_after_use", "empty_pattern", "pattern_longer_than_target", "colours", "occurrence_ends_at_last_index", "interrupted_call"]
+                   "copy_after_use", "empty_pattern", "pattern_longer_than_target", "colours", "occurrence_ends_at_last_index", "interrupted_call", "pattern_object_address_reused"]
 
 
 def plan(tier):
@@ -127,6 +127,7 @@ def gen_case(rng, tier):
         for _ in range(rng.choice([1, 2, 2, 3])):
             pool.append({"perm": p, "route": rng.choice(ROUTES)})
     pool = pool[:6]
+    initial_pool = [dict(e) for e in pool]
     nops = rng.randint(6, 30)
     ops = []
     live = []
@@ -194,14 +195,20 @@ def gen_case(rng, tier):
                 ops.append({"op": "memo_flush", "patt": pi})
             elif rr < 0.55:
                 ops.append({"op": "memo_prewarm", "patt": pi})
-            else:
+            elif rr < 0.85:
                 if len(pool) < 8:
                     ops.append({"op": "clone", "patt": pi, "how": rng.choice(["copy", "deepcopy", "pickle"])})
                     pool.append({"perm": pool[pi]["perm"], "route": "clone"})
+            else:
+                # the pattern object is freed and another pattern (same length) is built where it was
+                k = len(pool[pi]["perm"])
+                new_perm = common.rand_perm(rng, k)
+                ops.append({"op": "recycle", "patt": pi, "perm": new_perm})
+                pool[pi] = {"perm": new_perm, "route": pool[pi]["route"]}
     for iid in live:
         if rng.random() < 0.7:
             ops.append({"op": "iter_drain", "id": iid})
-    return {"pool": [p for p in pool if p["route"] != "clone"], "ops": ops}
+    return {"pool": initial_pool, "ops": ops}
 
 
 def cases(rng, tier):
@@ -417,6 +424,31 @@ def execute(case):
                     pool[pi]._pattern_details()  # pylint: disable=protected-access
                     out.fault("memo_prewarm")
                     hist.log.add("memo_prewarm", pi)
+            elif kind == "recycle":
+                pi = op["patt"]
+                if pi >= len(pool):
+                    continue
+                if any(hist.iters[i].meta["patt"] == pi and not hist.iters[i].exhausted and not hist.iters[i].closed
+                       for i in live_of.get(pi, []) if i in hist.iters):
+                    continue  # a live generator still refers to the object: it cannot be freed
+                old_id = id(pool[pi])
+                shared = sum(1 for o in pool if o is pool[pi]) > 1
+                pool[pi] = None
+                keep = []
+                new = None
+                for _ in range(30):
+                    new = pm.Perm(tuple(op["perm"]))
+                    if shared or id(new) == old_id:
+                        break
+                    keep.append(new)
+                if id(new) == old_id:
+                    out.probe("pattern_object_address_reused")
+                del keep
+                pool[pi] = new
+                pperm[pi] = tuple(op["perm"])
+                searched.pop(pi, None)
+                out.fault("recycle_pattern_object")
+                hist.log.add("recycle", pi)
             elif kind == "clone":
                 pi = op["patt"]
                 if pi >= len(pool):
